@@ -34,7 +34,17 @@ NestedCond == {Block(<<If(c, MCall(A, "act", <<IntL(1)>>), MCall(A, "act", <<Int
            \cup {Block(<<Let("ok", c), If(Lv("ok"), MCall(A, "act", <<IntL(3)>>), NoneS(0))>>) : c \in NestC}
            \cup {Block(<<WProp(A, "flag", c)>>) : c \in {Or(Bin(">", PN, IntL(0)), And(Rd(A, "flagB"), Rd(B, "flag"))), And(Bin(">", PN, IntL(0)), Or(Rd(A, "flagB"), Rd(B, "flag")))}}
 Params2 == <<[n |-> "n", ty |-> "int"], [n |-> "s", ty |-> "QString"]>>
-HandlerProgs == {[sig |-> "fired", params |-> Params2, form |-> f, body |-> b] : b \in Sample(HBodies) \cup TailDecl \cup NestedCond, f \in {"function"}}
+\* declarator lists: a later initialiser sees the earlier variables of the same statement -- also when the name means something else outside
+\* the statement (an outer variable, a parameter, a property of the emitter)
+DeclLists ==
+     {Block(<<Let("u", PN), LetJ("v", Bin("+", Lv("u"), IntL(1))), MCall(A, "act", <<Lv("v")>>)>>)}
+  \cup {Block(<<Let("k", IntL(5)), Block(<<Let("k", PN), LetJ("m", Bin("+", Lv("k"), IntL(1))), MCall(A, "act", <<Lv("m")>>)>>), MCall(A, "act", <<Lv("k")>>)>>)}
+  \cup {Block(<<Let("t", Str("outer")), If(c, Block(<<Let("t", PS), LetJ("w", Bin("+", Lv("t"), Str("!"))), LetJ("x", Bin("+", Lv("w"), Lv("t"))), MCall(B, "actText", <<Lv("x")>>)>>), NoneS(0)),
+                 MCall(B, "actText", <<Lv("t")>>)>>) : c \in Conds}
+  \cup {Block(<<Const("n2", Bin("*", PN, IntL(2))), ConstJ("n3", Bin("+", Lv("n2"), PN)), LetJ("n4", Lv("n3")), Log("log", <<Lv("n2"), Lv("n3"), Lv("n4")>>)>>)}
+  \cup {Block(<<Let("ival", IntL(7)), LetJ("z", Bin("+", Lv("ival"), IntL(1))), MCall(A, "act", <<Lv("z")>>)>>)}       \* `ival` is also a property of the emitter
+  \cup {Block(<<Let("s2", PS), LetJ("n", IntL(3)), LetJ("r", Bin("+", Lv("n"), IntL(1))), MCall(A, "actTwo", <<Lv("r"), Lv("n")>>), MCall(B, "actText", <<Lv("s2")>>)>>)}   \* shadows the parameter n
+HandlerProgs == {[sig |-> "fired", params |-> Params2, form |-> f, body |-> b] : b \in Sample(HBodies) \cup TailDecl \cup NestedCond \cup DeclLists, f \in {"function"}}
    \cup {[sig |-> "fired", params |-> Params2, form |-> f, body |-> b] : b \in Sample({Block(<<s>>) : s \in HSimple}), f \in {"arrow", "function"}}
 
 
